@@ -284,6 +284,14 @@ def oracle(aug, impl):
             for a, b in got[n_before:]:
                 if a + tol < sv < b - tol and v not in pp:
                     return "a dash piece passes an input vertex without keeping it (the join is lost)"
+    # a dash is ONE piece: two different pieces must not meet at a point where the pattern is on on both sides (the join
+    # there would be lost and caps would appear)
+    for i1, (pp1, z1) in enumerate(pieces):
+        for i2, (pp2, z2) in enumerate(pieces):
+            if i1 != i2 and not z1 and not z2 and pp1[-1] == pp2[0]:
+                for sj in arc_param(pp1[-1], loop, cum) or []:
+                    if tol < sj < L - tol and any(ea + tol < sj < eb - tol for ea, eb in exp):
+                        return "a dash was emitted as two pieces meeting at arc length %.3f although the pattern is on on both sides of it" % sj
     got = sorted((a, b) for a, b in got if b - a > 1e-6)
     merged = []
     for a, b in got:
